@@ -47,6 +47,8 @@ TRUSTED = ["CPython heapq / sorted (stable) / dict insertion order; numpy `@`, `
 ASSUMPTIONS = ["theorems: exact arithmetic over a linear ordered field; Valid layouts; the scheduler is equivariant "
                "(scripted by station name, uncontrolled, sorted with distinct keys) resp. depends on the view only "
                "through relative time (shift)",
+               "shift: the idle prefix does not abort (an EVSE with min_rate > 0 refuses pilot 0 in period 0 of ANY "
+               "scenario, DESIGN §8: such scenarios are excluded from the shift relation only)",
                "random draws are an input stream consumed in station order: the station-permutation relation is "
                "claimed for a constant stream"]
 RULE = ("scenario = 1-6 stations with non-sorted ids, mixed EVSE classes, voltages, phases in {0,30,-90,150}; 0-4 "
@@ -340,9 +342,23 @@ def build_sim(sc):
     evs = [I.make_ev(s) for s in sc["sessions"]]
     events = [PluginEvent(ev.arrival, ev) for ev in evs]
     events += [RecomputeEvent(int(r)) for r in sc.get("recomputes", [])]
-    algo = S.make_scheduler(sc)
+    feas = []
+
+    def probe(algo_, interface, sessions, schedule):
+        # the PUBLIC feasibility query a scheduler may use (interface.py:612-673 densifies by station order)
+        try:
+            with warnings.catch_warnings():
+                warnings.simplefilter("ignore")
+                v = bool(interface.is_feasible(schedule))
+        except Exception as e:  # noqa: BLE001
+            v = S.err_name(e)
+        feas.append([int(interface.current_time), v])
+        return None
+
+    hooks = S.Hooks(after=probe)
+    algo = S.make_scheduler(sc, hooks)
     sim = Simulator(net, algo, EventQueue(events), S.START, period=I.num(sc["period"]), verbose=False)
-    return sim, {"network": net, "scheduler": algo, "evs": evs, "hooks": None}
+    return sim, {"network": net, "scheduler": algo, "evs": evs, "hooks": hooks, "feas": feas}
 
 
 def run_scenario(sc):
@@ -355,6 +371,7 @@ def run_scenario(sc):
         raw = S.observe(sim, ctx, err)
         raw["noise_draws"] = ns["k"]
     raw["station_ids"] = list(sim.network.station_ids)
+    raw["feas"] = list(ctx["feas"])
     raw["constraint_index"] = list(sim.network.constraint_index)
     return raw
 
@@ -371,7 +388,7 @@ def keyed(raw):
         "occ": [{s: row[i] for i, s in enumerate(ids)} for row in raw["occ"]],
         "evs": {e["session"]: e for e in raw["evs"]},
         "events": raw["event_history"], "ev_history": raw["ev_history"], "pending": raw["pending"],
-        "station_ids": ids, "constraint_index": raw["constraint_index"], "noise_draws": raw["noise_draws"],
+        "feas": raw["feas"], "station_ids": ids, "constraint_index": raw["constraint_index"], "noise_draws": raw["noise_draws"],
     }
 
 
@@ -534,6 +551,10 @@ def relation(base, v, *, exact, k=0, same_order=False, error_partial=False, chec
     inv_v = [t - k for t in v["invoked"] if t - k >= lo]
     if inv_b != inv_v:
         d.append(f"scheduler invoked at {inv_b} vs {inv_v} (shift {k}, compared from period {lo})")
+    fb = [f for f in base["feas"] if f[0] >= lo]
+    fv = [[f[0] - k, f[1]] for f in v["feas"] if f[0] - k >= lo]
+    if fb != fv:
+        d.append(f"Interface.is_feasible(schedule) per invocation: {fb} vs {fv}")
     if not close(base["peak"], v["peak"]) or (exact and same_order and base["peak"] != v["peak"]):
         d.append(f"peak: {base['peak']!r} vs {v['peak']!r}")
     if set(base["evs"]) != set(v["evs"]):
@@ -553,6 +574,13 @@ def relation(base, v, *, exact, k=0, same_order=False, error_partial=False, chec
     if base["noise_draws"] != v["noise_draws"]:
         d.append(f"noise draws consumed: {base['noise_draws']} vs {v['noise_draws']}")
     return d
+
+
+def _idle_ok(sc):
+    """the k idle periods in front of a shifted scenario apply pilot 0 to every (empty) EVSE; an EVSE with
+    min_rate > 0 refuses pilot 0 (DESIGN §8, the code's own TODO) and aborts the run in period 0 whatever the
+    events are — the shift relation presupposes an idle prefix that does not abort (`hidle` of run_shift_partial)"""
+    return not any(st["kind"]["t"] == "cont" and float(I.num(st["kind"].get("min", 0))) > 1e-3 for st in sc["stations"])
 
 
 def _sorted_history(evs):
@@ -593,13 +621,16 @@ def pair_relations(case, obs):
         res["constraints"].append("station order changed by a constraint permutation")
     if sorted(obs["constraints"]["constraint_index"]) != sorted(base["constraint_index"]):
         res["constraints"].append("constraint names differ")
+    idle_ok = _idle_ok(sc)
     if valid:
         # bitwise: neither the station order nor the draw order changes
         res["sessions"] = relation(base, obs["sessions"], exact=True)
-        res["shift"] = relation(base, obs["shift"], exact=True, k=k, same_order=True, inv_from=(fe if fe is not None else 10 ** 9))
+        if idle_ok:
+            res["shift"] = relation(base, obs["shift"], exact=True, k=k, same_order=True, inv_from=(fe if fe is not None else 10 ** 9))
         if not tie:
             res["stations"] = relation(base, obs["stations"], exact=exact, error_partial=True)
-            res["combined"] = relation(base, obs["combined"], exact=exact, k=k, error_partial=True, inv_from=(fe if fe is not None else 10 ** 9))
+            if idle_ok:
+                res["combined"] = relation(base, obs["combined"], exact=exact, k=k, error_partial=True, inv_from=(fe if fe is not None else 10 ** 9))
     else:
         # which of two colliding plug-ins raises depends on the listing order; only the unordered parts
         res["stations"] = relation(base, obs["stations"], exact=exact, error_partial=True) if not tie else []
@@ -669,6 +700,8 @@ def features(case, obs):
     tr = tie_report(case, obs)
     if tr:
         f.append(tr)
+    if not _idle_ok(sc):
+        f.append("shift:skipped(min_rate>0 refuses the idle pilot 0)")
     if case.get("hashseeds"):
         f.append("hashseed:3")
     b, v = obs["base"], obs["stations"]
